@@ -10,6 +10,7 @@ import Dhlldv.Spec.Workbook
 import Dhlldv.Spec.FileName
 import Dhlldv.Spec.Pump
 import Dhlldv.Spec.OpPoint
+import Dhlldv.Spec.Viewer
 import Dhlldv.Gen.Effects
 
 /-! Line-protocol dispatcher over the hand-written Spec models. -/
@@ -39,6 +40,14 @@ def parsePSecs : List String → List Spec.Pipe.PSec → Option (List Spec.Pipe.
     | none => none
   | "U" :: rest, acc => parsePSecs rest (Spec.Pipe.PSec.pump { p := 0, dp := 0 } :: acc)
   | _, _ => none
+
+/-- a rational written `n/d` (d > 0) -/
+def parseRat (t : String) : Option Rat :=
+  match t.splitOn "/" with
+  | [n, d] => match n.toInt?, d.toNat? with
+    | some n, some d => if d == 0 then none else some (mkRat n d)
+    | _, _ => none
+  | _ => none
 
 def parseSecs (ts : List String) (n : Nat) (acc : List (Spec.Pipe.Sec Float)) : Option (List (Spec.Pipe.Sec Float)) :=
   match parseSecsRest ts n acc with
@@ -212,6 +221,17 @@ def dispatch (op : String) (a : Array String) : Option String :=
         | .pipe _ => none
       some (" ".intercalate ([toString r.main.dp, "|"] ++ (r.slurries.map fun e => toString e.1 ++ ":" ++ toString e.2.p ++ ":" ++ toString e.2.dp) ++ ["|"] ++ pumps))
     | _, _ => none
+  | "spec.checkvalue" =>
+    -- spec.checkvalue <what float(text) gives: none | n/d> <min> <max> <prev>   (exact rationals of the doubles involved); answer: which of the two
+    -- texts is left in the box (T = the entry, P = the previous value re-rendered) and the value the model gets
+    if a.size != 4 then none else
+    match parseRat a[1]!, parseRat a[2]!, parseRat a[3]! with
+    | some lo, some hi, some prev =>
+      let parsed : Option Rat := if a[0]! == "none" then none else parseRat a[0]!
+      if a[0]! != "none" && parsed.isNone then none else
+      let (v, txt) := Spec.Viewer.checkValue (fun _ => parsed) (fun _ => "P") "T" lo hi prev
+      some (txt ++ " " ++ toString v.num ++ "/" ++ toString v.den ++ " " ++ (if Spec.Viewer.accepted (fun _ => parsed) "T" lo hi then "1" else "0"))
+    | _, _, _ => none
   | "spec.gradeline" =>
     -- spec.gradeline rhol <n> sections… then n heads (pump − system head of the prefix of length 1 … n)
     if a.size < 2 then none else
